@@ -95,7 +95,7 @@ CHUNK = 6
 def shards(tier):
     specs, leaf = spec_universe(tier)
     allspecs = leaf + specs
-    return [("specs", i, min(i + CHUNK, len(allspecs))) for i in range(0, len(allspecs), CHUNK)] + [("extra", "discriminator", 0), ("extra", "cast-keys", 0)]
+    return [("specs", i, min(i + CHUNK, len(allspecs))) for i in range(0, len(allspecs), CHUNK)] + [("extra", "discriminator", 0), ("extra", "cast-keys", 0), ("extra", "function-duplicate", 0)]
 
 
 DISCRIMINATOR_SRC = '''
@@ -216,11 +216,54 @@ def _castkeys(acc):
                                          "for fp in hits: print(fp, acc.violations[fp][0].summary)", "sys.exit(1 if hits else 0)"]) + "\n")
 
 
+FUNCDUP_SRC = '''
+@utype.parse(options=Options(data_first_search=True))
+def F(a: int = Param(0, alias_from=['a_old']), b: int = Param(0, case_insensitive=True), *args: int, **kwargs: int):
+    return a, b, args, kwargs
+@utype.parse(options=Options(data_first_search=True, collect_errors=True))
+def G(a: int = Param(0, alias_from=['a_old']), b: int = Param(0, case_insensitive=True), **kwargs: int):
+    return a, b, kwargs
+'''
+# a parameter given by position and again under another of its spellings: data-first lookup (declared here) resolves the
+# second spelling to the parameter and drops it; what never may happen is another exception than ParseError.  (The default
+# field-first strategy passes it on to **kwargs, Python then raises TypeError: recorded under C06.)
+FUNCDUP_CALLS = ["F(1, a_old=2)", "F(1, a_old='x')", "F(1, 2, B=3)", "F(1, 2, B='x')", "F(1, a=2)", "F(1, 2, 3, a_old=4, B=5, zz=6)", "F('x', a_old=2)",
+                 "G(1, a_old=2)", "G(1, 2, B='x', zz='y')", "G(1, A_OLD=2)", "F(a_old=1, a=2)", "F(1, zz='x')"]
+
+
+def _funcdup(acc):
+    from ..universe import _NS
+    env = dict(_NS)
+    env["__name__"] = "utmc.ns"
+    exec(FUNCDUP_SRC, env)
+    for call in FUNCDUP_CALLS:
+        acc.states += 1
+        acc.transitions += 1
+        acc.evaluations += 1
+        st, payload = e1.call_guarded(lambda: eval(call, env), wall_s=1.0, step_budget=400_000)
+        kind, payload = e1.classify(st, payload)
+        acc.outcomes[kind] += 1
+        acc.nontrivial_add(("funcdup", call))
+        acc.sample(dict(decl="function, data-first, a parameter given twice", call=call, outcome=kind))
+        if kind in ("value", "perr"):
+            continue
+        if st == "exc" and isinstance(payload, TypeError) and "multiple values" in str(payload) and call.startswith(("F(1, a=2)", "F(a_old=1, a=2)")):
+            continue        # the parameter's own name twice: Python's own binding error, not a parse
+        site = e1.innermost_utype_frame(payload) if kind != "nonterm" else "-"
+        fp = f"C04|escape|{type(payload).__name__ if kind != 'nonterm' else 'nonterm'}|{site}|function-duplicate-spelling|{call.split('(')[0]}"
+        acc.violation(fp, f"data-first function, call {call}: {type(payload).__name__}: {short(payload, 100)}",
+                      "\n".join(["import sys", "sys.path.insert(0, '/verif')", "from utmc.ns import *", FUNCDUP_SRC,
+                                 f"try:\n    print({call}); sys.exit(0)", "except exc.ParseError as e:\n    print('ParseError', e); sys.exit(0)",
+                                 "except Exception as e:\n    print(type(e).__name__, e); sys.exit(1)"]) + "\n")
+
+
 def run_shard(shard, tier):
     if shard[0] == "extra":
         acc = Acc()
         if shard[1] == "discriminator":
             _discriminator(acc)
+        elif shard[1] == "function-duplicate":
+            _funcdup(acc)
         else:
             _castkeys(acc)
         return acc
